@@ -1016,6 +1016,10 @@ func c07Slices(root reflect.Value) [][]c07Step {
 // c07Populate calls every single-argument primitive setter of every value reachable from v with a non-default argument,
 // so that the existing elements have every plain and every OPTIONAL field set (the message alternatives of a one-of stay
 // as the payload builder chose them).
+// c07ZeroValues: c07Populate calls every primitive setter with the type's ZERO value - every optional field is then
+// present with zero content, which a copy must preserve as "present" (it is not the same as absent)
+var c07ZeroValues bool
+
 func c07Populate(v reflect.Value, depth int) {
 	if depth > 20 {
 		return
@@ -1050,17 +1054,25 @@ func c07Populate(v reflect.Value, depth int) {
 			a := reflect.New(at).Elem()
 			switch at.Kind() {
 			case reflect.Bool:
-				a.SetBool(true)
+				a.SetBool(!c07ZeroValues)
 			case reflect.Int, reflect.Int32, reflect.Int64:
-				a.SetInt(1)
+				if !c07ZeroValues {
+					a.SetInt(1)
+				}
 			case reflect.Uint32, reflect.Uint64:
-				a.SetUint(7)
+				if !c07ZeroValues {
+					a.SetUint(7)
+				}
 			case reflect.Float64:
-				a.SetFloat(1.5)
+				if !c07ZeroValues {
+					a.SetFloat(1.5)
+				}
 			case reflect.String:
-				a.SetString("x")
+				if !c07ZeroValues {
+					a.SetString("x")
+				}
 			case reflect.Array:
-				if at.Elem().Kind() == reflect.Uint8 {
+				if at.Elem().Kind() == reflect.Uint8 && !c07ZeroValues {
 					for k := 0; k < a.Len(); k++ {
 						a.Index(k).SetUint(uint64(k + 1))
 					}
@@ -1100,6 +1112,21 @@ func c07PathString(sp []c07Step) string {
 }
 
 func c07StructCopySweep(payloads map[string]func() (any, func() []byte), name string) (out [][2]string, cases int) {
+	for _, zero := range []bool{false, true} {
+		c07ZeroValues = zero
+		o, n := c07StructCopySweep1(payloads, name)
+		if zero {
+			for i := range o {
+				o[i][0] += ":fields-present-with-zero-content"
+			}
+		}
+		out, cases = append(out, o...), cases+n
+	}
+	c07ZeroValues = false
+	return out, cases
+}
+
+func c07StructCopySweep1(payloads map[string]func() (any, func() []byte), name string) (out [][2]string, cases int) {
 	mk, ok := payloads[name]
 	if !ok {
 		return nil, 0
